@@ -136,6 +136,15 @@ func Harness_C08_negotiate() {
 		}
 	}
 	zzverif.Assume(len(wants) > 0)
+	nestedWants := false
+	for a := 0; a < n; a++ {
+		for b := 0; b < n; b++ {
+			if a != b && wanted[a] && wanted[b] && g.reach(a, b) {
+				nestedWants = true
+			}
+		}
+	}
+	zzverif.Region("depth-limit-with-a-want-that-is-an-ancestor-of-another-want", depth > 0 && nestedWants)
 	var haves [][]byte
 	for i := 0; i < n; i++ {
 		if zzverif.Bool("have") {
